@@ -234,6 +234,7 @@ class Program:
                 modname = modname[: -len(".__init__")]
             try:
                 tree = ast.parse(src, filename=rel)
+                canonical_none_tests(tree)
             except SyntaxError as e:
                 raise AnalysisError(f"cannot parse {rel}: {e}")
             mod = ModuleInfo(modname, path, rel, src, tree)
@@ -451,3 +452,142 @@ def ufunc_as_operator(name: Optional[str], call: ast.Call) -> Optional[ast.expr]
     if name == "numpy.negative" and len(call.args) == 1:
         return ast.copy_location(ast.UnaryOp(op=ast.USub(), operand=call.args[0]), call)
     return None
+
+
+
+def canonical_none_tests(tree: ast.Module) -> int:
+    """Every spelling of the test "X is None" is read as `X is None` / `X is not None`, at load time, in place and with
+    the positions of the original nodes -- so that no rule can depend on which of the equivalent spellings was written:
+
+        None is X                      -> X is None             None is not X                -> X is not None
+        not (X is None)                -> X is not None         not (X is not None)          -> X is None
+        isinstance(X, type(None))      -> X is None             not isinstance(X, type(None)) -> X is not None
+
+    These are identities of the language (`is` yields a bool; `type(None)` has the single instance None) as long as the
+    module does not re-bind `isinstance` / `type`, which is checked.  `X == None` is *not* included: it calls `__eq__`
+    and is elementwise on arrays."""
+    rebound = {n.id for n in ast.walk(tree) if isinstance(n, ast.Name) and isinstance(n.ctx, (ast.Store, ast.Del))} | \
+              {a.arg for f in ast.walk(tree) if isinstance(f, (ast.FunctionDef, ast.AsyncFunctionDef, ast.Lambda)) for a in f.args.args + f.args.kwonlyargs}
+    builtins_ok = not ({"isinstance", "type"} & rebound)
+    count = [0]
+
+    def is_none(e):
+        return isinstance(e, ast.Constant) and e.value is None
+
+    def none_cmp(e):
+        return isinstance(e, ast.Compare) and len(e.ops) == 1 and isinstance(e.ops[0], (ast.Is, ast.IsNot)) and is_none(e.comparators[0]) and not is_none(e.left)
+
+    class T(ast.NodeTransformer):
+        def visit_Compare(self, node):
+            self.generic_visit(node)
+            if len(node.ops) == 1 and isinstance(node.ops[0], (ast.Is, ast.IsNot)) and is_none(node.left) and not is_none(node.comparators[0]):
+                count[0] += 1
+                return ast.copy_location(ast.Compare(left=node.comparators[0], ops=node.ops, comparators=[node.left]), node)
+            return node
+
+        def visit_Call(self, node):
+            self.generic_visit(node)
+            if builtins_ok and isinstance(node.func, ast.Name) and node.func.id == "isinstance" and len(node.args) == 2 and not node.keywords:
+                t = node.args[1]
+                if isinstance(t, ast.Call) and isinstance(t.func, ast.Name) and t.func.id == "type" and len(t.args) == 1 and not t.keywords and is_none(t.args[0]) \
+                        and not isinstance(node.args[0], ast.Starred):
+                    count[0] += 1
+                    return ast.copy_location(ast.Compare(left=node.args[0], ops=[ast.Is()], comparators=[ast.copy_location(ast.Constant(value=None), node)]), node)
+            return node
+
+        def visit_IfExp(self, node):
+            # A if not c else B  ==  B if c else A   (one orientation of a conditional expression)
+            self.generic_visit(node)
+            if isinstance(node.test, ast.UnaryOp) and isinstance(node.test.op, ast.Not):
+                count[0] += 1
+                return ast.copy_location(ast.IfExp(test=node.test.operand, body=node.orelse, orelse=node.body), node)
+            return node
+
+        def visit_UnaryOp(self, node):
+            self.generic_visit(node)
+            if isinstance(node.op, ast.Not) and none_cmp(node.operand):
+                count[0] += 1
+                c = node.operand
+                return ast.copy_location(ast.Compare(left=c.left, ops=[ast.IsNot() if isinstance(c.ops[0], ast.Is) else ast.Is()], comparators=c.comparators), node)
+            return node
+
+    T().visit(tree)
+
+    # --- emptiness tests on len(): one spelling per meaning (identities on non-negative integers)
+    len_ok = "len" not in rebound
+
+    def is_len(e):
+        return len_ok and isinstance(e, ast.Call) and isinstance(e.func, ast.Name) and e.func.id == "len" and len(e.args) == 1 and not e.keywords
+
+    def intc(e, v):
+        return isinstance(e, ast.Constant) and not isinstance(e.value, bool) and isinstance(e.value, int) and e.value == v
+
+    class L(ast.NodeTransformer):
+        def visit_Compare(self, node):
+            self.generic_visit(node)
+            if len(node.ops) != 1:
+                return node
+            l, op, r = node.left, node.ops[0], node.comparators[0]
+            if is_len(r) and isinstance(l, ast.Constant):  # 0 == len(X): operands swapped, operator mirrored
+                mirror = {ast.Eq: ast.Eq, ast.NotEq: ast.NotEq, ast.Lt: ast.Gt, ast.Gt: ast.Lt, ast.LtE: ast.GtE, ast.GtE: ast.LtE}.get(type(op))
+                if mirror is None:
+                    return node
+                l, op, r = r, mirror(), l
+                count[0] += 1
+            if not is_len(l):
+                return node
+            empty = (isinstance(op, ast.Lt) and intc(r, 1)) or (isinstance(op, ast.LtE) and intc(r, 0)) or (isinstance(op, ast.Eq) and intc(r, 0))
+            nonempty = (isinstance(op, ast.GtE) and intc(r, 1)) or (isinstance(op, ast.NotEq) and intc(r, 0)) or (isinstance(op, ast.Gt) and intc(r, 0))
+            if empty or nonempty:
+                if not ((isinstance(op, ast.Eq) or isinstance(op, ast.Gt)) and l is node.left):
+                    count[0] += 1
+                return ast.copy_location(ast.Compare(left=l, ops=[ast.Eq() if empty else ast.Gt()], comparators=[ast.copy_location(ast.Constant(value=0), node)]), node)
+            if l is not node.left:
+                return ast.copy_location(ast.Compare(left=l, ops=[op], comparators=[r]), node)
+            return node
+
+        def visit_UnaryOp(self, node):
+            self.generic_visit(node)
+            if isinstance(node.op, ast.Not) and is_len(node.operand):
+                count[0] += 1
+                return ast.copy_location(ast.Compare(left=node.operand, ops=[ast.Eq()], comparators=[ast.copy_location(ast.Constant(value=0), node)]), node)
+            return node
+
+    L().visit(tree)
+
+    # --- the axis of a numpy reduction is read as the keyword `axis=`, also when it was passed positionally
+    np_names = set()
+    for st in ast.walk(tree):
+        if isinstance(st, ast.Import):
+            for a in st.names:
+                if a.name == "numpy":
+                    np_names.add(a.asname or "numpy")
+    np_names -= rebound
+    RED = {"sum", "mean", "max", "min", "amax", "amin", "argmax", "argmin", "all", "any", "prod", "cumsum", "cumprod", "std", "var", "median", "nansum", "nanmean", "nanmax", "nanmin"}
+
+    class A(ast.NodeTransformer):
+        def visit_Call(self, node):
+            self.generic_visit(node)
+            f = node.func
+            if any(k.arg in ("axis", None) for k in node.keywords) or any(isinstance(a, ast.Starred) for a in node.args):
+                return node
+            if isinstance(f, ast.Attribute) and isinstance(f.value, ast.Name) and f.value.id in np_names and f.attr in RED and len(node.args) == 2:
+                count[0] += 1
+                node.keywords = [ast.keyword(arg="axis", value=node.args[1])] + list(node.keywords)
+                node.args = node.args[:1]
+            elif isinstance(f, ast.Attribute) and f.attr == "reduce" and isinstance(f.value, ast.Attribute) and isinstance(f.value.value, ast.Name) and f.value.value.id in np_names and len(node.args) == 2:
+                count[0] += 1  # np.<ufunc>.reduce(a, K)
+                node.keywords = [ast.keyword(arg="axis", value=node.args[1])] + list(node.keywords)
+                node.args = node.args[:1]
+            elif isinstance(f, ast.Attribute) and f.attr in RED and len(node.args) == 1 and not (isinstance(f.value, ast.Name) and f.value.id in np_names) \
+                    and ((isinstance(node.args[0], ast.Constant) and isinstance(node.args[0].value, int) and not isinstance(node.args[0].value, bool))
+                         or (isinstance(node.args[0], ast.UnaryOp) and isinstance(node.args[0].op, ast.USub) and isinstance(node.args[0].operand, ast.Constant))):
+                count[0] += 1  # x.sum(0) / x.max(-1)
+                node.keywords = [ast.keyword(arg="axis", value=node.args[0])] + list(node.keywords)
+                node.args = []
+            return node
+
+    A().visit(tree)
+    if count[0]:
+        ast.fix_missing_locations(tree)
+    return count[0]
